@@ -1,1 +1,2 @@
 import ZixModel.Properties.C20
+import ZixModel.Properties.C09
